@@ -277,6 +277,39 @@ T = {
  'C20-6': ('C20', GRPCGCP, 'defer gb.updateReplacements(gb.addrs) at the top of UpdateClientConnState (argument evaluated before the store)', 'refresh in flight and a resolver update with a different list: replacements get the previous list'),
  'C20-7': ('C20', GRPCGCP, 'ResolverError records the error; newSubConnLocked refuses growth while it is set', 'resolver error, then demand for growth before the next update: calls stay queued'),
  'C20-8': ('C20', GRPCGCP, '"pool empty → create one, return" merged into "len < MinSize → enforceMinSize, return"', 'MinSize ≥ 2, a channel shut down, next update with a new list: the early return skips the push loops for the survivors'),
+ # ---- wave 4 (defects hidden inside larger refactorings)
+ 'C01-9': ('C01', GRPCGCP, "UpdateSubConnState split into helpers; the 'home recovered' prune deletes from affinityMap instead of fallbackMap", 'a bound key whose channel flaps (leaves READY and returns): the binding is wiped without UNBIND'),
+ 'C01-10': ('C01', GRPCGCP, "extracted completeRefreshLocked seeds the replacement's state with READY instead of the old connection's state", "refresh whose old connection left READY before the replacement connects, pool of one: no picker is republished, the key's READY channel is unreachable"),
+ 'C02-9': ('C02', GRPCGCP, 'Pick split into helpers; getSubConnRef lost the boundKey != "" guard', 'a BIND whose reply carries an empty key, then unkeyed calls with two READY channels: all pinned to one channel'),
+ 'C02-10': ('C02', GRPCGCP, 'extracted completeRefresh unregisters refreshingScRefs[oldSc] instead of [sc]', 'a refreshed channel later leaves READY: its reports are swallowed, it stays in every later snapshot'),
+ 'C03-9': ('C03', GRPCGCP, "pool size kept in an atomic counter; the swap's forget/re-insert pair decrements without incrementing", 'k completed refreshes: the size check sees size−k and the pool grows beyond maxSize'),
+ 'C03-10': ('C03', GRPCGCP, 'refresh single-exit: defer endRefreshAttempt(ref, registered) evaluates registered at the defer statement', 'a second unresponsive detection before the replacement is READY: several replacements for one channel'),
+ 'C04-9': ('C04', GRPCGCP, 'Shutdown handling extracted into forgetSubConn, which publishes only if the old state was READY', 'the last CONNECTING connection is shut down: aggregate moves to TRANSIENT_FAILURE with no publish'),
+ 'C04-10': ('C04', GRPCGCP, 'extracted completeRefresh records the replacement as READY when the old connection is already gone', 'old connection SHUTDOWN before the replacement is READY: replacement uncounted, later numReady wraps'),
+ 'C05-9': ('C05', GRPCGCP, 'extracted completeRefresh hands the slot over only if scRefs[oldSc] == scRef but transfers the state unconditionally', 'old connection SHUTDOWN during a refresh, replacement READY, then any Pick: nil slot in the snapshot'),
+ 'C05-10': ('C05', GRPCGCP, 'detectUnresponsive split; clientDeadlineExceeded calls rpcErr.Error() without the nil test', 'a successful call completing after its context deadline: nil error dereferenced in Done'),
+ 'C06-9': ('C06', GRPCGCP, 'shared createSubConn helper logs the pool size through the locking accessor while gb.mu is held', 'any NewSubConn failure: self-deadlock on gb.mu'),
+ 'C06-10': ('C06', GRPCGCP, 'lock()/rlock() helpers returning the unlock function; unbindSubConn defers gb.lock() without calling the result', 'one successful UNBIND completion: gb.mu is left locked for ever'),
+ 'C07-9': ('C07', GRPCGCP, 'refresh with a deferred reset of refreshing on err != nil; `if sc, err := …` shadows err', 'a failed creation of the replacement: the channel can never be refreshed again'),
+ 'C07-10': ('C07', GRPCGCP, 'replacementReady switch: case Idle calls Connect() and falls out to `return true`', 'a replacement reporting IDLE (after a failed first attempt): the swap happens before READY'),
+ 'C08-9': ('C08', GRPCGCP, 'getReadySubConnRef flattened; the fallback entry is consulted before the home state', 'unbind + re-bind of a key while it is in fallback: served from the stale stand-in although the new home is READY'),
+ 'C08-10': ('C08', GRPCGCP, 'regeneratePicker returns the error picker without storing it in gb.picker', 'total outage, a keyed pick through a pre-outage picker records a non-READY stand-in that is never purged'),
+ 'C09-9': ('C09', GRPCGCP, 'extracted adoptReplacement transfers the state only if the old connection still has one', 'old connection SHUTDOWN during a refresh: the READY replacement has no state record, round-robin callers wait for ever'),
+ 'C09-10': ('C09', GRPCGCP, 'enforceMinSize fills a pre-sized batch and appends all of it, nil tail included, when a creation fails', 'a failed NewSubConn while the initial pool is built: phantom nil slots in the round-robin list'),
+ 'C12-9': ('C12', GRPCGCP, 'cond replaced by a ready channel; RecvMsg selects on ready and ctx.Done() without priority', 'stream exists and the context is done: RecvMsg returns Canceled itself half of the time instead of delegating'),
+ 'C12-10': ('C12', GRPCGCP, "SendMsg split; the merged exit returns the sticky initStreamErr instead of this attempt's error", 'a first creation fails, a later SendMsg creates the stream: it returns the old error and never sends'),
+ 'C13-9': ('C13', ME, 'scheduleUnavailable made variadic; the timer closures capture the loop variable (go 1.12 semantics)', "two endpoints added in one SetEndpoints call: only the last one's recovery window ever ends"),
+ 'C13-10': ('C13', ME, 'SetEndpoints single exit: the empty-list check only sets err, the removal helper still runs', 'SetEndpoints(nil): rejected, but every endpoint is deleted; the next report panics or mis-routes'),
+ 'C14-9': ('C14', ME, 'delayed-switch callback re-validates against the endpoint captured at scheduling time instead of the current one', 'a pending switch overtaken by two immediate switches: the timer moves current from an available higher-priority endpoint down'),
+ 'C14-10': ('C14', ME, 'setEndpointAvailability as a switch loses the already-unavailable case', 'a repeated unavailable report after the window expired re-opens a full recovery window'),
+ 'C15-9': ('C15', GRPCGCP, 'notify reads the state itself; monitor waits on a second GetState()', 'a transition between the two reads is never reported until the next change'),
+ 'C15-10': ('C15', GRPCGCP, 'obsolete pools shut down in deferred closures capturing the loop variable (go 1.12 semantics)', 'two or more pools obsolete in one update: one is closed N times, the others leak with their monitors'),
+ 'C16-10': ('C16', GRPCGCP, "switchFromTo: the 'already scheduled' test is merged into the first guard, before the immediate-switch test", 'a pending delayed switch and an update that removes the current endpoint: Current() names a pool that was deleted'),
+ 'C16-11': ('C16', GRPCGCP, 'shared shutdownPool helper returns early when Close() fails, before stopMonitoring', 'a pool whose ClientConn.Close fails (already closed): its monitor goroutine outlives Close'),
+ 'C17-9': ('C17', GRPCGCP, "effectiveAPIConfig ensures the ChannelPool section before proto.Clone, i.e. on the caller's message", "a Go config object without a pool section: the caller's proto gains an empty channel_pool"),
+ 'C17-10': ('C17', GRPCGCP, 'UpdateClientConnState re-initialises when gb.cfg == nil || len(gb.scRefs) == 0', 'a later update while the pool is empty (all creations failed or all shut down): the configuration is replaced'),
+ 'C20-9': ('C20', GRPCGCP, 'gb.addrs store moved into helpers that the emptied-pool branch does not call', 'a non-first update that finds the pool empty: the connection is created from the previous list'),
+ 'C20-10': ('C20', GRPCGCP, 'push loops replaced by a walk over scRefList with a replacementOf lookup that never breaks', 'two refreshes in flight and a resolver update: a replacement is skipped and takes over with the old list'),
 }
 
 ENV = dict(os.environ, GOFLAGS='-mod=mod', GOPROXY='off', GOSUMDB='off', GOTOOLCHAIN='local')
